@@ -142,6 +142,9 @@ func gen(t *rapid.T) (*scen.Scenario, []string) {
 	}
 	steps = append(steps, scen.Step{Op: "call", Calls: callers})
 	answers, afeats := scen.AnswerRounds(s, nil, callers, 0)
+	if afeats["result-longer-than-1MiB"] > 0 {
+		cls = append(cls, "server-history:message-longer-than-1MiB")
+	}
 	if afeats["repeated-result"] > 0 {
 		cls = append(cls, "server-history:repeated-result")
 	}
@@ -201,6 +204,9 @@ func gen(t *rapid.T) (*scen.Scenario, []string) {
 	}
 	sc.RPC.Steps = steps
 	sc.GoMaxProcs = rapid.SampledFrom([]int{1, 2, 16}).Draw(t, "gomaxprocs")
+	if sc.ServerClockOffset > 0 {
+		cls = append(cls, "server-clock-after-2038")
+	}
 	if rapid.IntRange(0, 3).Draw(t, "oldsession") == 0 {
 		// a server session that has sent a billion messages: its seq_no passes 2^31 during this history
 		sc.RPC.ServerSeqStart = int32(math.MaxInt32 - 1 - 2*rapid.IntRange(0, 5).Draw(t, "seqleft"))
